@@ -197,8 +197,53 @@ type PObserver interface {
 // sentinel content the harness puts into blocks before Parse
 var sentinelSeq = lz.Seq{LitLen: 0xdead, MatchLen: 0xbeef, Offset: 0xfeed, Aux: 0x5e}
 
+// pbParser drives a bare lz.ParserBuffer through the Parser interface: Parse
+// only advances the parse position and emits the bytes as literals.
+type pbParser struct{ lz.ParserBuffer }
+
+func (p *pbParser) Parse(blk *lz.Block, flags int) (int, error) {
+	n := len(p.Data) - p.W
+	if n > p.BlockSize {
+		n = p.BlockSize
+	}
+	if blk != nil {
+		blk.Sequences = blk.Sequences[:0]
+		blk.Literals = blk.Literals[:0]
+	}
+	if n == 0 {
+		return 0, lz.ErrEmptyBuffer
+	}
+	if blk != nil {
+		blk.Literals = append(blk.Literals, p.Data[p.W:p.W+n]...)
+	}
+	p.W += n
+	return n, nil
+}
+
+func (p *pbParser) ParserConfig() lz.ParserConfig { return nil }
+
 // NewParserFor creates the parser and the model state.
 func NewParserFor(c gen.Cfg) (*PState, error) {
+	if c.Type == "PB" {
+		pb := &pbParser{}
+		bc := lz.BufConfig{ShrinkSize: c.ShrinkSize, BufferSize: c.BufferSize, WindowSize: c.WindowSize, BlockSize: c.BlockSize}
+		if err := pb.Init(bc); err != nil {
+			return nil, err
+		}
+		e := pb.BufferConfig()
+		st := &PState{P: pb, Cfg: c, Eff: gen.Cfg{Type: "PB", ShrinkSize: e.ShrinkSize, BufferSize: e.BufferSize, WindowSize: e.WindowSize, BlockSize: e.BlockSize}}
+		st.BufferSize, st.ShrinkSize, st.WindowSize, st.BlockSize = e.BufferSize, e.ShrinkSize, e.WindowSize, e.BlockSize
+		if c.BufferSize != 0 {
+			st.BufferSize = c.BufferSize
+		}
+		if c.ShrinkSize != 0 {
+			st.ShrinkSize = c.ShrinkSize
+		}
+		if c.BlockSize != 0 {
+			st.BlockSize = c.BlockSize
+		}
+		return st, nil
+	}
 	pc := c.Lz()
 	p, err := pc.NewParser()
 	if err != nil {
